@@ -42,7 +42,7 @@ W3 == [seq |-> 3, from |-> "u2", to |-> "u1", denom |-> "d2", amt |-> 1]
 WBig == [seq |-> 4, from |-> "u2", to |-> "u1", denom |-> "d1", amt |-> 4]     \* over the 64-bit cap (cap = 3 units; 4 units = 2^64)
 L(b, w) == [b |-> b, seq |-> w.seq, from |-> w.from, to |-> w.to, denom |-> w.denom, amt |-> w.amt]
 
-WN(i) == [seq |-> i, from |-> "u2", to |-> "u1", denom |-> "d1", amt |-> 1]
+WN(i) == [seq |-> i, from |-> IF i % 3 = 0 THEN "up:u2" ELSE "u2", to |-> IF i % 2 = 0 THEN "up:u1" ELSE "u1", denom |-> "d1", amt |-> 1]
 TreeN(n) == [i \in 1..n |-> L(1, WN(i))]
 MaxTreeN == IF Tier = "thorough" THEN 16 ELSE 8
 NName(n) == "N" \o ToString(n)
